@@ -1193,6 +1193,10 @@ class Lower:
             # boost::any(const T&): tagged union constructor of the prelude
             self.cur.libcalls.append('boost::any(T)')
             return 'any__from_%s(%s)' % (self.types.mangle(qt(strip(args[0]))), self.addr(self.ex(args[0])))
+        if cls == 'handle' and not args and t.name in self.types.opaque and 'ofstream' in t.name:
+            # std::ofstream(): a stream that is not open and has no error state = the all-zero ghost struct of the prelude (A11)
+            self.cur.libcalls.append('std::ofstream()')
+            return '(%s){0}' % self.types.ctype(t)
         if cls == 'handle' or cls == 'function':
             raise LowerError("construction of library type %r" % t)
         if not args:
